@@ -201,6 +201,9 @@ def decoder_cases(draw, decoders=None, max_n=60, n_errors=40):
             pool = size_pool(cls, 6, 6, 1, 80)
         elif name == 'MatchingDecoder':
             pool = size_pool(cls, 6, 6, 1, max_n)
+        elif name == 'XCubeMatchingDecoder':
+            # (planes wrap differently once a side exceeds four)
+            pool = size_pool(cls, 6, 6, 1, 160)
         else:
             pool = size_pool(cls, 3, 3, 1, 100)
         size = draw(st.sampled_from(pool))
